@@ -1016,7 +1016,7 @@ func opValueChangeJournal(ctx context.Context, pc *uint64, interpreter *EVMInter
 	}
 
 	typeSizeU64, overflow := typeSize.Uint64WithOverflow()
-	if overflow || typeSizeU64 > 32 {
+	if overflow || typeSizeU64 > 32 || offsetU64+typeSizeU64 > 32 {
 		return nil, errors.New("type size out of range")
 	}
 
